@@ -55,6 +55,12 @@ func loadEnv(extra ...string) []string {
 // LoadRepo loads the given package patterns (relative to repo) with full syntax and
 // builds SSA for them (function bodies only for the repo's own packages).
 func LoadRepo(repo string, patterns []string, wantSSA bool, extraEnv ...string) (*Ctx, error) {
+	return LoadRepoOverlay(repo, patterns, wantSSA, nil, extraEnv...)
+}
+
+// LoadRepoOverlay is LoadRepo with additional in-memory source files (used to type-check and analyse
+// template skeletons as if they were generated files of the repository).
+func LoadRepoOverlay(repo string, patterns []string, wantSSA bool, overlay map[string][]byte, extraEnv ...string) (*Ctx, error) {
 	c := &Ctx{RepoDir: repo, Fset: token.NewFileSet(), Pkgs: map[string]*packages.Package{},
 		SSA: map[string]*ssa.Package{}, Funcs: map[string]*ssa.Function{}}
 	c.Env = loadEnv(extraEnv...)
@@ -63,8 +69,9 @@ func LoadRepo(repo string, patterns []string, wantSSA bool, extraEnv ...string) 
 			packages.NeedDeps | packages.NeedTypes | packages.NeedSyntax | packages.NeedTypesInfo | packages.NeedTypesSizes | packages.NeedModule,
 		Dir:   repo,
 		Fset:  c.Fset,
-		Env:   c.Env,
-		Tests: false,
+		Env:     c.Env,
+		Tests:   false,
+		Overlay: overlay,
 	}
 	pkgs, err := packages.Load(cfg, patterns...)
 	if err != nil {
